@@ -567,10 +567,10 @@ type ContractFile struct {
 
 var clauseKeywords = map[string]bool{
 	"props": true, "mode": true, "requires": true, "ensures": true, "loop": true, "assigns": true,
-	"pure": true, "trusted": true, "inline": true, "use": true, "unfold": true, "wrap": true,
+	"pure": true, "trusted": true, "assumed": true, "inline": true, "use": true, "unfold": true, "wrap": true,
 	"func": true, "spec": true, "axiom": true, "lemma": true, "assume": true, "lit": true, "panics": true,
 	"induction": true, "fresh": true, "havoc": true, "ghost": true, "pred": true, "noframe": true,
-	"reads": true, "assert": true, "cases": true, "ghostvar": true, "ghostfield": true, "nooverflow": true, "unrollall": true, "pathcap": true, "opaque": true, "mayalias": true,
+	"reads": true, "defines": true, "assert": true, "cases": true, "ghostvar": true, "ghostfield": true, "nooverflow": true, "unrollall": true, "pathcap": true, "opaque": true, "mayalias": true,
 }
 
 // parseContractText parses the `//@`-prefixed lines (prefix="//@") of a Go file
@@ -714,7 +714,7 @@ func parseContractText(path, text, prefix string) (*ContractFile, error) {
 			}
 			cur.IsLit = n
 			continue
-		case "pure", "trusted", "inline", "wrap", "noframe", "nooverflow", "unrollall", "opaque", "mayalias":
+		case "pure", "trusted", "assumed", "inline", "wrap", "noframe", "nooverflow", "unrollall", "opaque", "mayalias":
 			cur.Flags[first] = true
 			continue
 		case "pathcap":
@@ -782,7 +782,7 @@ func parseContractText(path, text, prefix string) (*ContractFile, error) {
 			continue
 		}
 		switch cl.Kind {
-		case "requires", "ensures", "invariant", "decreases", "assume":
+		case "requires", "ensures", "invariant", "decreases", "assume", "defines":
 			e, err := ParseCExpr(cl.Text)
 			if err != nil {
 				return fail(err)
